@@ -28,12 +28,27 @@ func (w *srvWorld) checkC01() {
 	r := w.r
 	w.noteArrivals()
 	byID := map[string]*member{}
+	idUsers := map[string][]*member{}
 	for _, msg := range w.msgs {
 		for _, m := range msg.Members {
 			if m.ID != "" {
 				byID[m.ID] = m
+				idUsers[m.ID] = append(idUsers[m.ID], m)
 			}
 		}
+	}
+	// fits: the record is, in every respect judged here, the reply to msg
+	fits := func(o *outRec, msg *message) bool {
+		exp := w.expectedReplies(msg)
+		if msg.Garbage || msg.Empty || o.Array != msg.Batch || len(exp) != len(o.Objs) {
+			return false
+		}
+		for i, m := range exp {
+			if w.checkResp(m, o.Objs[i]) != "" {
+				return false
+			}
+		}
+		return true
 	}
 	answered := map[int]*outRec{}
 	for _, o := range w.out {
@@ -46,11 +61,32 @@ func (w *srvWorld) checkC01() {
 		}
 		var msg *message
 		for _, ob := range o.Objs {
-			if ob.ID != "null" && ob.ID != "" {
-				if m := byID[ob.ID]; m != nil {
-					msg = w.msgs[m.Msg]
-				}
+			if ob.ID != "null" && ob.ID != "" && len(idUsers[ob.ID]) == 1 {
+				msg = w.msgs[idUsers[ob.ID][0].Msg]
 				break
+			}
+		}
+		if msg == nil {
+			// only ids that two requests bear: the record is attributed to the
+			// message it fits (a violation only if it fits none of them)
+			var cands []*message
+			for _, ob := range o.Objs {
+				for _, m := range idUsers[ob.ID] {
+					cands = append(cands, w.msgs[m.Msg])
+				}
+			}
+			for _, c := range cands {
+				if msg == nil && answered[c.Idx] == nil && fits(o, c) {
+					msg = c
+				}
+			}
+			for _, c := range cands {
+				if msg == nil && answered[c.Idx] == nil {
+					msg = c
+				}
+			}
+			if msg == nil && len(cands) > 0 {
+				msg = cands[0]
 			}
 		}
 		if msg == nil {
@@ -157,8 +193,15 @@ func (w *srvWorld) checkC01() {
 			return
 		}
 		for _, m := range msg.Members {
+			if m.DupOf != nil {
+				if m.Enters == 0 {
+					r.Probe("call-with-reused-id-rejected")
+				} else {
+					r.Probe("call-with-reused-id-accepted")
+				}
+			}
 			switch {
-			case m.hasHandler() && m.Enters == 0 && !(m.Kind == mCall && w.cancelRequested(m)):
+			case m.hasHandler() && m.Enters == 0 && !(m.Kind == mCall && (w.cancelRequested(m) || m.DupOf != nil)):
 				r.Fail("handler-not-run", "handler for %s (%s) never ran", m.Tag, m.Raw)
 				return
 			case m.hasHandler() && m.Enters > 1:
@@ -600,6 +643,17 @@ func (w *srvWorld) stampReplyArrivals() {
 		for i := range pr.Replies {
 			if s, ok := arr[pr.Replies[i].Raw]; ok {
 				pr.Replies[i].Arrive = s
+				continue
+			}
+			// a reply that travelled inside an array together with requests
+			best := -1
+			for raw, s := range arr {
+				if len(raw) > len(pr.Replies[i].Raw) && strings.Contains(raw, pr.Replies[i].Raw) && (best < 0 || s < best) {
+					best = s
+				}
+			}
+			if best >= 0 {
+				pr.Replies[i].Arrive = best
 			}
 		}
 	}
